@@ -15,7 +15,7 @@ CLAIMS = {
          "model checking of the codec definitions (all byte strings <= 2, all alphabet strings <= 3, bech32 small scope) plus TLC trace validation of tens of thousands of recorded calls of the real functions; the oracle is an independent byte-level definition, not the code's output",
          "SHA-256 is an environment function evaluated with crypto/sha256; purity is observed up to cap of the argument slices"),
  "C01": ("DESIGN.md §4 C01",
-         "TLA+ spec AddressCodec (CashAddr/SLP/legacy/pubkey addresses as values with prescribed strings + strict decoder) model-checked for encode->decode round trip on a toy configuration; real constructor and DecodeAddress calls for all nets/kinds/renderings judged by TLC trace validation",
+         "TLA+ spec AddressCodec (CashAddr/SLP/legacy/pubkey addresses as values with prescribed strings + strict decoder) model-checked for encode->decode round trip on a toy configuration; real constructor and DecodeAddress calls for all nets/kinds/renderings judged by TLC trace validation, incl. purity of constructor arguments, SetFormat sequences on one object (AddressExtras) and a replay of the stateless calls in other orders and from 8 goroutines at once (TraceBase.ConcurrentReplayVerdict)",
          "model checking of the address specification (round trip of every kind and rendering; version-byte sweep) plus TLC trace validation of every constructor / String / EncodeAddress / ScriptAddress / IsForNet / DecodeAddress observation recorded from the real code",
          "SHA-256, RIPEMD-160 and secp256k1 curve membership are environment functions computed by the harness; network parameters are read from chaincfg at run time"),
  "C02": ("DESIGN.md §4 C02",
@@ -39,11 +39,11 @@ CLAIMS = {
          "model checking of the extraction design over the exhaustive small scope plus trace validation of every message class on the real code",
          "double-SHA256 pair facts planned by an independent walk in the harness (missing fact = exit 2)"),
  "C10": ("DESIGN.md §4 C10",
-         "TLA+ spec TxFilter on top of Bloom: MatchTxAndUpdate as BIP37 IsRelevantAndUpdate (result and post-state exact, bit-level via Murmur3) and the block scan as the relation Lower (least fixpoint of relevance under exact-set semantics) <= reported <= Upper (final filter bits); real transactions with random intra-block spend DAGs, every script shape, three update flags, topological / reverse / random orders are scanned through the three APIs and judged by TLC trace validation",
+         "TLA+ spec TxFilter on top of Bloom: MatchTxAndUpdate as BIP37 IsRelevantAndUpdate (result and post-state exact, bit-level via Murmur3) and the block scan as the relation Lower (least fixpoint of relevance under exact-set semantics) <= reported <= Upper (final filter bits); real transactions with random intra-block spend DAGs, every script shape, three update flags, topological / reverse / random orders are scanned through the three APIs and judged by TLC trace validation; the scan ALGORITHM itself (spender index + recursive re-check, skip of matched transactions) is transcribed in MC_TxScan and model-checked against the least fixpoint for every block order (1.9 M states, negative control without the re-check), and the same TLC run generates sampled configurations that are replayed on the real scanners in all six orders",
          "model checking of the underlying abstract filter plus TLC trace validation of recorded transaction matches and block scans against the BIP37 definition and the scan contract",
          "txscript push extraction / script class are environment facts; named deviations for unparsable scripts and empty pushes"),
  "C20": ("DESIGN.md §4 C20",
-         "static: a lock-discipline model (paths of LOCK/UNLOCK/RD/WR atoms) is EXTRACTED from the current bloom/filter.go with go/ast and TLC checks every interleaving of K=2,3 threads for accesses outside the mutex, lock leaks and self-deadlock (BloomConc.tla); dynamic: -race build, up to 32 goroutines on one shared tiny filter, every call ticketed; TLC trace validation decides 'no insertion lost / membership after completed insertion' with BIP37 indices, and TLC searches for a linearization of small rounds with reload/unload (Lin_BloomConc.tla); race-detector reports are events no action accepts",
+         "static: a lock-discipline model (paths of LOCK/UNLOCK/RD/WR atoms) is EXTRACTED from the current bloom/filter.go with go/ast and TLC checks every interleaving of K=2,3 threads for accesses outside the mutex, lock leaks and self-deadlock (BloomConc.tla); dynamic: -race build, up to 32 goroutines on one shared tiny filter, every call ticketed; TLC trace validation decides 'no insertion lost / membership after completed insertion' with BIP37 indices, and TLC searches for a linearization of small rounds with reload/unload (Lin_BloomConc.tla); race-detector reports are events no action accepts; further round kinds: AtomRound (an insertion lands in exactly one message, with its tweak), TxRound / TxReloadRound (no outpoint update lost, none applied to a message that never matched), LoadedRound (IsLoaded agrees with the message at quiescence), GcsConc; the static model is skipped (and said so in the evidence) when the source shape is outside the extractor",
          "model checking of all interleavings of the extracted lock discipline plus trace validation / linearization search of recorded concurrent executions",
          "Go memory model not specified; dynamic part observes only the schedules that occurred"),
  "C04": ("DESIGN.md §4 C04",
@@ -83,12 +83,12 @@ CLAIMS = {
          "TLC trace validation against exact-arithmetic definitions plus a small-scope model check of those definitions",
          "IEEE-754 decomposition logged by the harness; exploration structured + random, not exhaustive"),
  "C19": ("DESIGN.md §4 C19",
-         "TLA+ spec CoinSet: selectors as relations (distinct offered coins, MaxInputs, total = target or >= target+MinChange; shortest qualifying prefix of the list / of some descending order with free ties; average value-age for min-priority) and the coin set as a sequence; MC_CoinSet checks the relations are satisfiable exactly when a qualifying prefix exists over all small coin lists and generates every push/pop/shift/read history of bounded depth; all four real selectors on exhaustive small lists and random lists up to 12 coins, and real coin-set histories, are judged by TLC trace validation",
+         "TLA+ spec CoinSet: selectors as relations (distinct offered coins, MaxInputs, total = target or >= target+MinChange; shortest qualifying prefix of the list / of some descending order with free ties; average value-age for min-priority) and the coin set as a sequence; MC_CoinSet checks the relations are satisfiable exactly when a qualifying prefix exists over all small coin lists and generates every push/pop/shift/read history of bounded depth; all four real selectors on exhaustive small lists and random lists up to 12 coins, and real coin-set histories, are judged by TLC trace validation; thorough tier: the incrementally cached totals are an inductive invariant checked symbolically by Apalache over unbounded integers (CoinSetCache.tla, with a drifting variant as negative control)",
          "small-scope model checking of the relations plus TLC trace validation",
          "pointer identity of coins; no completeness demanded of the min-priority selector"),
  "C08": ("DESIGN.md §4 C08",
-         "TLA+ spec Robust: one total action per untrusted-input entry point with outcome in {ok, err} and bounds on time and allocation as functions of the input length; TLC generates adversarial inputs from the parser specifications (all CashAddr strings whose 40-bit checksum verifies over fewer than eight symbols, Gen_Robust) and the harness adds degenerate framings, count maxima, truncations/mutations of valid blocks, transactions, keys, filter-load, merkle-block, GCS and JSON inputs; each call is executed three times on the real code (panics recovered, 10 s deadline, process death journalled) and judged by TLC trace validation",
-         "TLC trace validation of totality / time / allocation for fourteen entry points on adversarially constructed inputs",
+         "TLA+ spec Robust: one total action per untrusted-input entry point with outcome in {ok, err} and bounds on time and allocation as functions of the input length; TLC generates adversarial inputs from the parser specifications (all CashAddr strings whose 40-bit checksum verifies over fewer than eight symbols, Gen_Robust) and the harness adds degenerate framings, count maxima, truncations/mutations of valid blocks, transactions, keys, filter-load, merkle-block, GCS and JSON inputs; block scans of dependency chains / DAGs against a loaded filter (BlockScan); each call is executed three times on the real code (panics recovered, 10 s deadline, process death journalled; cost = min(wall clock, process CPU time)) and judged by TLC trace validation",
+         "TLC trace validation of totality / time / allocation for fifteen entry points on adversarially constructed inputs",
          "time and memory are measured, only bounded by the spec; hangs by deadline"),
 }
 
